@@ -124,7 +124,7 @@ def events(tr):
 class C13(Prop):
     id = 'C13'
     num = 13
-    regions = {'quick': [('renege', 260), ('renege_preempt', 60), ('renege_jockey', 60), ('core', 120), ('block', 40), ('all', 80), ('sched', 30), ('dyn', 30)]}
+    regions = {'quick': [('renege', 260), ('renege_preempt', 60), ('renege_jockey', 60), ('renege_schedpre', 40), ('core', 120), ('block', 40), ('all', 80), ('sched', 30), ('dyn', 30)]}
     rule = ('one case = one observed run; the event list has every patience sample (logged in the distribution object), every renege with '
             'what happened in its frame, the waiting customers and their reneging dates after every event, and every baulking decision '
             '(population passed, probability returned, uniform draw, outcome); non-trivial = the run had >= 1 renege and >= 3 baulking '
